@@ -10,9 +10,13 @@ package main
 import (
 	"encoding/json"
 	"fmt"
+	"io/ioutil"
+	"net/http"
+	"net/http/httptest"
 	"os"
 	"sort"
 	"strings"
+	"sync"
 	"time"
 
 	"github.com/Comcast/rulio/core"
@@ -726,11 +730,134 @@ func eventText(r *rep.Report) {
 	}
 }
 
+// croltGlue: the System with the glue for the persistent cron service (cron.CroltSimple) and a
+// stand-in for that service which keeps the job table its /add and /rem requests describe
+// (account = location, id = rule id; same parameters as crolt's handlers).  After every step the
+// table holds exactly the scheduled rules that exist.
+func croltGlue(r *rep.Report) {
+	type fake struct {
+		sync.Mutex
+		jobs    map[string]string
+		strange []string
+	}
+	for ki, kind := range drv.Kinds {
+		f := &fake{jobs: map[string]string{}}
+		mux := http.NewServeMux()
+		mux.HandleFunc("/add", func(w http.ResponseWriter, q *http.Request) {
+			var job struct {
+				Account  string `json:"account"`
+				Id       string `json:"id"`
+				Schedule string `json:"schedule"`
+			}
+			b, _ := ioutil.ReadAll(q.Body)
+			if json.Unmarshal(b, &job) != nil || job.Account == "" || job.Id == "" {
+				http.Error(w, "bad job", 400)
+				return
+			}
+			f.Lock()
+			f.jobs[job.Account+"\x00"+job.Id] = job.Schedule
+			f.Unlock()
+			fmt.Fprintf(w, `{"job":%s}`, b)
+		})
+		mux.HandleFunc("/rem", func(w http.ResponseWriter, q *http.Request) {
+			a, id := q.FormValue("account"), q.FormValue("id")
+			if a == "" || id == "" {
+				http.Error(w, "need an account and an id", 400)
+				return
+			}
+			f.Lock()
+			delete(f.jobs, a+"\x00"+id)
+			f.Unlock()
+			fmt.Fprint(w, `{"status":"ok"}`)
+		})
+		mux.HandleFunc("/", func(w http.ResponseWriter, q *http.Request) {
+			f.Lock()
+			f.strange = append(f.strange, q.Method+" "+q.URL.String())
+			f.Unlock()
+			http.NotFound(w, q)
+		})
+		srv := httptest.NewServer(mux)
+		s, err := drv.NewSys(drv.SysOpts{Linear: kind == "linear", TTL: sys.Forever}, &cron.CroltSimple{CroltURL: srv.URL + []string{"", "/"}[ki%2], RulesURL: "http://rules.invalid/api"})
+		if err != nil {
+			r.Violate("", "cannot build a System with the crolt glue: "+err.Error(), nil)
+			srv.Close()
+			continue
+		}
+		want := map[string]string{}
+		type step struct{ Op, Loc, Id, Sched string }
+		steps := []step{
+			{"add", "home", "tick", "0 0 1 1 *"}, {"add", "home", "other", "0 0 2 1 *"}, {"add", "attic", "tick", "0 0 3 1 *"},
+			{"rem", "home", "tick", ""}, {"add", "home", "a&b=c", "0 0 4 1 *"}, {"add", "two words", "sp ace", "0 0 5 1 *"}, {"add", "home", "uni\u00e9#1", "0 0 6 1 *"},
+			{"rem", "home", "a&b=c", ""}, {"rem", "two words", "sp ace", ""}, {"plain", "home", "other", ""}, {"rem", "home", "uni\u00e9#1", ""},
+			{"add", "attic", "again", "0 0 7 1 *"}, {"clear", "attic", "", ""},
+		}
+		var hist []step
+		for si, st := range steps {
+			hist = append(hist, st)
+			var oerr error
+			switch st.Op {
+			case "add":
+				_, oerr = s.AddRule(drv.Ctx(), st.Loc, st.Id, fmt.Sprintf(`{"schedule":%q,"action":{"code":"1"}}`, st.Sched))
+				if oerr == nil {
+					want[st.Loc+"\x00"+st.Id] = st.Sched
+				}
+			case "plain":
+				_, oerr = s.AddRule(drv.Ctx(), st.Loc, st.Id, `{"when":{"pattern":{"a":"b"}},"action":{"code":"1"}}`)
+				if oerr == nil {
+					delete(want, st.Loc+"\x00"+st.Id)
+				}
+			case "rem":
+				_, oerr = s.RemRule(drv.Ctx(), st.Loc, st.Id)
+				if oerr == nil {
+					delete(want, st.Loc+"\x00"+st.Id)
+				}
+			case "clear":
+				oerr = s.ClearLocation(drv.Ctx(), st.Loc)
+				if oerr == nil {
+					for k := range want {
+						if strings.HasPrefix(k, st.Loc+"\x00") {
+							delete(want, k)
+						}
+					}
+				}
+			}
+			r.Case(true, fmt.Sprint("crolt-glue", kind, si))
+			r.Count("crolt_glue_steps", 1)
+			f.Lock()
+			got := map[string]string{}
+			for k, v := range f.jobs {
+				got[k] = v
+			}
+			strange := append([]string{}, f.strange...)
+			f.Unlock()
+			show := func(m map[string]string) []string {
+				out := []string{}
+				for k, v := range m {
+					out = append(out, strings.Replace(k, "\x00", " / ", 1)+" @ "+v)
+				}
+				sort.Strings(out)
+				return out
+			}
+			wit := rep.J{"state": kind, "history": hist, "error": drv.ErrStr(oerr), "jobs_at_the_cron_service": show(got), "scheduled_rules_that_exist": show(want), "requests_to_unknown_paths": strange}
+			if oerr != nil {
+				r.Violate("", "an ordinary operation on a scheduled rule failed with the persistent cron glue: "+oerr.Error(), wit)
+				break
+			}
+			if strings.Join(show(got), "\n") != strings.Join(show(want), "\n") {
+				r.Violate("", "the jobs held by the (persistent) cron service are not exactly the scheduled rules that exist", wit)
+				break
+			}
+		}
+		srv.Close()
+	}
+}
+
 func main() {
 	e := rep.GetEnv()
 	r := rep.New(e)
 	switch e.Stage {
 	case "timed":
+		croltGlue(r)
 		eventText(r)
 		noOccurrence(r, e)
 		restart(r, e)
